@@ -333,7 +333,9 @@ def checkWindow (w : List Event) (b : Batch) : Option String :=
       | some d => new == some d
       | none => new.isNone || new == some 0
   if evs.any (fun e => !(b.links.contains (linkOf e))) then some "event-lost-link"
-  else if evs.any (fun e => isFlip e && (match specEntry e with | some x => !(b.typed.contains x) | none => false)) then
+  else if evs.any (fun e => isFlip e && (match specEntry e with
+      | some x => !(b.typed.contains x) && b.typed.any (fun y => y.id == e.id)
+      | none => false)) then
     some "class-transition-misclassified"
   else if evs.any (fun e => match specEntry e with | some x => !(b.typed.contains x) | none => false) then
     some "event-lost-entry"
